@@ -69,19 +69,38 @@ func (cp *FreeList) flushBlock(blk types.Block) (types.Work, error) {
 	return types.Work(types.SizeBytesLen + types.OffBytesLen), nil
 }
 
+// Pending returns the number of entries that are waiting to be flushed.
+func (cp *FreeList) Pending() int {
+	cp.poolLk.RLock()
+	defer cp.poolLk.RUnlock()
+	return len(cp.blockPool)
+}
+
 // Flush writes outstanding work and buffered data to the freelist file.
 func (cp *FreeList) Flush() (types.Work, error) {
+	return cp.FlushN(-1)
+}
+
+// FlushN writes the n oldest pending entries, or all of them if n is
+// negative, to the freelist file. Entries put after a caller took Pending
+// are left for a later flush.
+func (cp *FreeList) FlushN(n int) (types.Work, error) {
 	cp.flushLock.Lock()
 	defer cp.flushLock.Unlock()
 
 	cp.poolLk.Lock()
-	if len(cp.blockPool) == 0 {
+	if n < 0 || n > len(cp.blockPool) {
+		n = len(cp.blockPool)
+	}
+	if n == 0 {
 		cp.poolLk.Unlock()
 		return 0, nil
 	}
-	blocks := cp.blockPool
-	cp.blockPool = make([]types.Block, 0, blockPoolSize)
-	cp.outstandingWork = 0
+	blocks := cp.blockPool[:n:n]
+	rest := cp.blockPool[n:]
+	cp.blockPool = make([]types.Block, len(rest), blockPoolSize+len(rest))
+	copy(cp.blockPool, rest)
+	cp.outstandingWork = types.Work(len(rest) * (types.SizeBytesLen + types.OffBytesLen))
 	cp.poolLk.Unlock()
 	vhook.At("fl.flush.swapped")
 
